@@ -35,6 +35,30 @@ fn main() {
         }
     }
     ctx.run_slice(Slice::new(format!("interchange[{} composable pairs of {}]^2", pairs.len(), speci.name()), pairs.len() as u64, |i, loc| check_interchange::<B>(&pairs, i as usize, loc)).heavy());
+    // associativity on spiders with boundaries up to 2 plus single operations (non-injective legs on both sides)
+    let mut ua = Spec { n_min: 0, n_max: 2, e_min: 0, e_max: 0, ks: 0, kt: 0, lw: 1, lx: 1, a: 2, b: 2, q: 0 }.universe().all_open();
+    for a in 0..=2usize {
+        for b in 0..=2usize {
+            ua.push(POpen::singleton(0u8, &vec![0u8; a], &vec![0u8; b]));
+        }
+    }
+    let idxa = by_source(&ua);
+    ctx.run_slice(Slice::new(format!("assoc-spiders-and-operations[{} diagrams, boundaries <=2]", ua.len()), ua.len() as u64, |i, loc| check_assoc_from::<B>(&ua, &idxa, i as usize, loc)).heavy());
+    // interchange again, on spiders with boundaries up to 2 (merging / splitting legs on both sides)
+    let specs2 = Spec { n_min: 0, n_max: 2, e_min: 0, e_max: 0, ks: 0, kt: 0, lw: 1, lx: 1, a: 2, b: 2, q: 0 };
+    let mut us2 = specs2.universe().all_open();
+    if !quick {
+        us2.extend(Spec { e_min: 1, ..Spec::open(1, 1, 1, 1, 1, 1, 1) }.universe().all_open());
+    }
+    let mut pairs2: Vec<(POpen<u8, u8>, POpen<u8, u8>)> = vec![];
+    for f in &us2 {
+        for g in &us2 {
+            if f.target_type() == g.source_type() {
+                pairs2.push((f.clone(), g.clone()));
+            }
+        }
+    }
+    ctx.run_slice(Slice::new(format!("interchange-spiders[{} composable pairs of {}]^2", pairs2.len(), specs2.name()), pairs2.len() as u64, |i, loc| check_interchange::<B>(&pairs2, i as usize, loc)).heavy());
     // naturality of the symmetry: all pairs
     let spect = if quick { Spec::open(2, 1, 2, 2, 1, 1, 1) } else { Spec::open(2, 1, 2, 2, 2, 2, 2) };
     let ut = spect.universe().all_open();
